@@ -464,6 +464,10 @@ def build(ctx):
             p, b = Ints('p!pop b!pop')
             rp = th_seq.L_at(st, res, p)
             rb = th_seq.L_at(st, res, C(b))
+            # the gap lemma (proved above by induction) at the two places the loop needs it: before the first allowed day, and between the
+            # allowed day being consumed and the next one (ground instances: the quantified lemma makes the solver wander)
+            for f in (GAP0(T0o, P(IntVal(0))), GAP0(D(k) + 1, P(k + 1)), AX_C(D(k))):
+                ex.fact(f)
             return [('length_is_the_count_so_far', And(n_ == C(P(k)), n_ >= 0)),
                     ('members_are_the_business_days_passed_in_order',
                      ForAll([p], Implies(And(0 <= p, p < n_), And(bd(rp.t), T0o <= rp.t, rp.t < P(k), rp.us == 0, C(rp.t) == p)))),
@@ -476,7 +480,7 @@ def build(ctx):
         st = State()
         kq, aq, bq = Ints('k!q a!q b!q')
         # C(t0) = 0, its difference equation, and the gap lemma (proved above by induction) as quantified facts for this section
-        st.pc += [T0o <= T1o, C(T0o) == 0, ForAll([kq], AX_C(kq)), ForAll([aq, bq], GAP0(aq, bq))]
+        st.pc += [T0o <= T1o, C(T0o) == 0]
         self_p = SV('obj', None, cls='Calendar')
         outs = ex.run_function(st, 'Calendar._populate', [self_p], {})
         ctx.absorb(ex)
